@@ -14,7 +14,7 @@ import (
 //	select children : cols, from?, where?, group?, having?, order?, limit?   (by role = kind)
 //	cols / group / args / list / row / icols : children are expressions
 //	from            : tbl | join | dtbl
-//	tbl             : A = table name, Q = alias ("" none)
+//	tbl             : A = table name, Q = alias ("" none), S = schema / database qualifier ("" none)
 //	join            : A = "join" | "left join", children = left, right, on-expression
 //	dtbl            : A = alias, child = subq
 //	where / having  : one expression child
@@ -31,6 +31,7 @@ type N struct {
 	K      string
 	A      string
 	Q      string
+	S      string // tbl: schema / database qualifier the table is written with ("" none)
 	C      []*N
 	Quoted bool // tbl: the name is written as a quoted identifier although it needs no quoting
 	id     int  // preorder index inside its statement (assigned by number)
@@ -71,17 +72,19 @@ func isStmt(k string) bool {
 
 // ---- constructors used by the pool ------------------------------------------------------
 
-func col(name string) *N         { return nd("col", name) }
-func qcol(q, name string) *N     { return &N{K: "col", A: name, Q: q} }
-func ival(s string) *N           { return nd("int", s) }
-func sval(s string) *N           { return nd("str", s) }
-func fval(s string) *N           { return nd("float", s) }
-func bval(s string) *N           { return nd("bool", s) }
-func null() *N                   { return nd("null", "null") }
-func star() *N                   { return nd("star", "*") }
-func fn(name string, a ...*N) *N { return nd("func", name, nd("args", "", a...)) }
-func tbl(name string) *N         { return nd("tbl", name) }
-func qtbl(name string) *N        { return &N{K: "tbl", A: name, Quoted: true} }
+func col(name string) *N           { return nd("col", name) }
+func qcol(q, name string) *N       { return &N{K: "col", A: name, Q: q} }
+func ival(s string) *N             { return nd("int", s) }
+func sval(s string) *N             { return nd("str", s) }
+func fval(s string) *N             { return nd("float", s) }
+func bval(s string) *N             { return nd("bool", s) }
+func null() *N                     { return nd("null", "null") }
+func star() *N                     { return nd("star", "*") }
+func fn(name string, a ...*N) *N   { return nd("func", name, nd("args", "", a...)) }
+func tbl(name string) *N           { return nd("tbl", name) }
+func qtbl(name string) *N          { return &N{K: "tbl", A: name, Quoted: true} }
+func stbl(schema, name string) *N  { return &N{K: "tbl", A: name, S: schema} }
+func sqtbl(schema, name string) *N { return &N{K: "tbl", A: name, S: schema, Quoted: true} }
 func tblAs(name, alias string) *N {
 	return &N{K: "tbl", A: name, Q: alias}
 }
@@ -232,7 +235,11 @@ func (p *printer) node(n *N) {
 		p.kw("FROM")
 		p.list(n.C)
 	case "tbl":
-		p.id(p.identQ(n.A, n.Quoted))
+		if n.S != "" {
+			p.id(p.identQ(n.S, n.Quoted) + "." + p.identQ(n.A, n.Quoted))
+		} else {
+			p.id(p.identQ(n.A, n.Quoted))
+		}
 		if n.Q != "" {
 			p.kw("as")
 			p.id(n.Q)
